@@ -65,7 +65,21 @@ RULE = ("cases: (1) exhaustive small scope: every leaf reader (DataFrameReader, 
         "finalised file read back in chunks through a second associated reader; all suffixes; default arguments "
         "(BufferedWriter(inner): 1000 rows, append sequences up to 2300 rows); column names with blanks, separators, digits, "
         "'index', 'Unnamed: 0'; (9) finding streams (known_findings.json): Parquet files written by pandas with their row "
-        "labels, delimited-text string columns whose first rows look like numbers. "
+        "labels, delimited-text string columns whose first rows look like numbers; "
+        "(10) shared in-memory frames (round 5): ColumnMappedReader over DataFrameReader(s) of the caller's frame with maps whose "
+        "targets overlap their sources (swap, chains in both listing orders, 3-chain, 3-cycle, swap + fresh name) and their "
+        "neighbours (fresh names only, identity pair, absent sources), alone, nested in each other, under / over a computed "
+        "reader, in a join (also a join of a frame with a renamed view of the SAME frame object, a renaming across join members), "
+        "n = 3 (thorough 0,1,2,3,5; the full cross for the swap and the chain over a frame, thorough for every tree at n = 3, "
+        "a rotating selection otherwise): the observed request (read / every chunk size / lazy chunks / get_column_names x None, all "
+        "names, a 2-permutation, one name) follows a whole read with columns=None and 9 other histories on the same reader "
+        "object; a plain DataFrameReader and a second renamed reader over the SAME DataFrame object are observed after the "
+        "first reader object was read ('the frame the caller handed over is unchanged', judged by model and oracle like any "
+        "read of that frame); the same maps over delimited-text / Parquet leaves (ctor, from_path) and frames with row "
+        "labels / object strings; 60 (400) random partial permutations / chains with random histories.  In EVERY reader "
+        "case of every stream the harness keeps a deep copy of each DataFrame it hands to DataFrameReader and compares "
+        "names, labels, dtypes and values after the observation (a difference is reported as the error FrameChanged, which "
+        "the model never returns). "
         "distinct = distinct (entry, reader tree / writer "
         "configuration and variation, tables, chunk size, request, earlier requests); non-trivial = >= 2 rows and (>= 2 chunks or a composite "
         "reader or >= 2 appends)")
@@ -92,7 +106,12 @@ ASSUMPTIONS = [
     "when they were appended (the DataFrame buffer deep-copies, the Records buffer np.append()s, the Dicts buffer copies each "
     "dict since the repair 6413561 of /repo); a reader is a value: an earlier request on the same reader object (a whole read "
     "of a ComputedTabularDataReader over a DataFrameReader included: repair af0267a of /repo) changes neither what it "
-    "answers next nor its get_column_names()",
+    "answers next nor its get_column_names(); a reader only reads: the DataFrame handed to a DataFrameReader has the same "
+    "column names, row labels, dtypes and values after any sequence of requests on readers built over it, and several reader "
+    "objects over one DataFrame object answer as if each had its own copy",
+    "the pairs of a column map have distinct sources (dict(pairs) keeps the last pair of a repeated source, the model's "
+    "tr_rename the first: the generators never repeat a source); targets may be sources of other pairs (the lookup is one "
+    "step, in Python's dict.get as in tr_rename)",
     "negative chunk sizes are not modelled (the model's chunk size is a nat); chunk size 0 is",
     "Parquet record-batch lengths are an oracle recorded from pyarrow.ParquetFile.iter_batches(c) per case (once with "
     "a column projected, once with none: pyarrow 25 re-chunks across row groups only in the first case); the contract "
@@ -231,6 +250,8 @@ def _ids(case):
         _reg_reader(ids, case["reader"])
         for n in case.get("cols") or []:
             ids.name(n)
+        for o in case.get("others") or []:                  # (after the observed reader's: the ids of older cases stay)
+            _reg_reader(ids, o["reader"])
     if "tab" in case:
         for n in case["tab"]["names"]:
             ids.name(n)
@@ -470,6 +491,11 @@ def _build(spec):
     if k == "frame":
         ctor = spec.get("ctor")
         df = _df(spec["tab"])
+        if _SHARE is not None and spec.get("share") and not ctor:
+            # ONE DataFrame object of the caller, handed to every DataFrameReader whose leaf carries this key
+            df = _SHARE.setdefault(spec["share"], df)
+        if _WATCH is not None and not ctor and not any(df is w[0] for w in _WATCH):
+            _WATCH.append((df, df.copy(deep=True)))
         if ctor and len(df.columns) == 1:
             nm = df.columns[0]
             if ctor == "series":                            # the name of the series is the column name
@@ -510,6 +536,42 @@ def _build(spec):
     raise ValueError(k)
 
 
+_SHARE = None      # per observation: share key -> the caller's DataFrame
+_WATCH = None      # per observation: (the DataFrame handed to a DataFrameReader, a deep copy taken when it was handed over)
+
+
+class FrameChanged(Exception):
+    """the caller's DataFrame (the one handed to DataFrameReader) is not what it was: column names, row labels, dtypes or
+    values changed while the readers over it were being read"""
+
+
+def _setup(c):
+    """build the observed reader (and the other reader objects of the case, which share the caller's frames with it),
+    drive the other readers, then the earlier requests on the observed reader itself"""
+    global _SHARE, _WATCH
+    _SHARE, _WATCH = {}, []
+    try:
+        r = _build(c["reader"])
+        others = [(_build(o["reader"]), o.get("pre")) for o in c.get("others") or []]
+    finally:
+        _SHARE = None
+    for o, pre in others:
+        _run_pre(o, pre)
+    _run_pre(r, c.get("pre"))
+    return r
+
+
+def _frames_untouched():
+    """a reader only reads: after the observation every DataFrame that was handed to a DataFrameReader still has its
+    column names, row labels, dtypes and values"""
+    global _WATCH
+    watch, _WATCH = _WATCH or [], None
+    for df, was in watch:
+        if (list(df.columns) != list(was.columns) or list(df.index) != list(was.index)
+                or [str(t) for t in df.dtypes] != [str(t) for t in was.dtypes] or not df.equals(was)):
+            raise FrameChanged(f"columns {list(df.columns)} (were {list(was.columns)})")
+
+
 def _lab(x):
     """a row label as a JSON-able value: integers as int, strings as 's:...'"""
     if isinstance(x, str):
@@ -542,15 +604,21 @@ def _run_pre(r, pre):
 
 def _run_read(c):
     ids = _ids(c)
-    r = _build(c["reader"])
-    _run_pre(r, c.get("pre"))
-    return _frame_out(ids, r.read(columns=c["cols"]))
+    r = _setup(c)
+    out = _frame_out(ids, r.read(columns=c["cols"]))
+    _frames_untouched()
+    return out
 
 
 def _run_chunks(c):
+    out = _run_chunks_(c)
+    _frames_untouched()
+    return out
+
+
+def _run_chunks_(c):
     ids = _ids(c)
-    r = _build(c["reader"])
-    _run_pre(r, c.get("pre"))
+    r = _setup(c)
     if c.get("lazy"):                                       # consumed with next(), another reader object used in between
         it = r.get_chunked_data_iterator(chunk_size=c["c"], columns=c["cols"])
         out = []
@@ -568,9 +636,10 @@ def _run_chunks(c):
 
 def _run_names(c):
     ids = _ids(c)
-    r = _build(c["reader"])
-    _run_pre(r, c.get("pre"))
-    return [ids.look_name(n) for n in r.get_column_names()]
+    r = _setup(c)
+    out = [ids.look_name(n) for n in r.get_column_names()]
+    _frames_untouched()
+    return out
 
 
 class _Stop(Exception):
@@ -1068,6 +1137,15 @@ def oracle(c, i):
             if bs is not None and any(len(x) != c["b"] for x in bs[:-1]):
                 return f"an emitted batch other than the last one has not buffer_size rows: {[len(x) for x in bs]}"
         return None
+    if i == ["err", "FrameChanged"] and (fn == "names" or in_domain(c)):
+        return ("the DataFrame handed to DataFrameReader was changed by reading (column names, row labels, dtypes or "
+                "values differ from what the caller handed over)")
+    if fn == "names" and c.get("others") is not None:
+        # (new streams only) get_column_names by definition, whatever other readers over the same frame did before
+        exp = [ids.name(x) for x in spec_names(c["reader"])]
+        if spec_table(c["reader"]) is not None and i != ["ok", exp]:
+            return f"get_column_names: {i!r} instead of {exp}"
+        return None
     if not in_domain(c):
         return None
     names, rows = spec_table(c["reader"])
@@ -1521,6 +1599,217 @@ def gen_finding_streams(ctx):
                     cases.append(_case("read", rd, cols, tags=tg))
                     for c in range(1, n + 1):
                         cases.append(_case("chunks", rd, cols, c, tags=tg))
+    return cases
+
+
+# ------------------------------------------------------------------------------------------------ shared frames
+def _maps_for(names):
+    """renamings over the (>= 4) names of a table: targets that overlap the sources (swap, chains in both listing orders,
+    a 3-cycle), with and without a fresh name next to them, fresh names only, an identity pair, absent sources (also
+    one whose target is an existing name).  Every source occurs once (dict(pairs) and the model's first-match lookup
+    agree) and the renamed names are distinct."""
+    a, b, s, t = names[:4]
+    return {
+        "swap": [[a, b], [b, a]],
+        "chain": [[b, "raw_" + b], [s, b]],
+        "chain'": [[s, b], [b, "raw_" + b]],
+        "chain3": [[t, "old_" + t], [s, t], [b, s]],
+        "cycle3": [[a, b], [b, s], [s, a]],
+        "swap+fresh": [[s, t], [t, s], [a, "A"]],
+        "fresh": [[a, "A"], [t, "T"]],
+        "identity+absent": [[b, b], ["zz", "Q"], ["yy", a]],
+    }
+
+
+def _reqs_for(rd, k=0):
+    """column requests on a reader: None, all names explicitly (reversed), two names in the other order, one name"""
+    names = spec_names(rd)
+    m = len(names)
+    return [None, list(reversed(names)), [names[(k + 1) % m], names[k % m]], [names[(k + 2) % m]]]
+
+
+def _first_requests(rd, n, k=0):
+    """what the reader object was asked before the observed request; the whole read with columns=None comes first"""
+    names = spec_names(rd)
+    proj = [names[(k + 1) % len(names)], names[k % len(names)]]
+    return [("read-all", [["read", None]]),
+            ("read-all-twice", [["read", None], ["read", None]]),
+            ("read-all,names", [["read", None], ["names"]]),
+            ("read-all,projection", [["read", None], ["read", proj]]),
+            ("chunks-all", [["chunks", 2, None, None]]),
+            ("one-chunk-of-all", [["chunks", n + 1, None, None]]),
+            ("abandoned,read-all", [["chunks", 1, None, 1], ["read", None]]),
+            ("read-all-names", [["read", list(names)]]),
+            ("projection,read-all", [["read", proj], ["read", None]]),
+            ("names", [["names"]])]
+
+
+def _shared_trees(n):
+    """readers over the caller's in-memory frames F (4 columns) and G (2 columns); leaves with the same share key are
+    DataFrameReaders over the SAME DataFrame object"""
+    tf, tg, th = plain_table(["a", "b", "s", "t"], n), plain_table(["c", "d"], n, 7), plain_table(["g", "h"], n, 3)
+    F, G, H = _leaf("frame", tf, share="F"), _leaf("frame", tg, share="G"), _leaf("frame", th)
+    maps = _maps_for(tf["names"])
+    trees = {}
+    for ml, m in maps.items():
+        trees[f"mapped(F,{ml})"] = {"k": "mapped", "r": F, "map": m}
+    trees["mapped(mapped(F,fresh),swap)"] = {"k": "mapped", "map": [["A", "b"], ["b", "A"]],
+                                             "r": {"k": "mapped", "r": F, "map": maps["fresh"]}}
+    trees["mapped(mapped(F,swap),chain)"] = {"k": "mapped", "map": maps["chain"], "r": {"k": "mapped", "r": F, "map": maps["swap"]}}
+    trees["computed(mapped(F,chain),copy)"] = {"k": "computed", "col": "k", "fn": ["copy", "b"],
+                                               "r": {"k": "mapped", "r": F, "map": maps["chain"]}}
+    trees["mapped(computed(F,const),swap-with-computed)"] = {"k": "mapped", "map": [["k", "a"], ["a", "k"]], "r": {
+        "k": "computed", "r": F, "col": "k", "fn": ["const", 2.5]}}
+    trees["joined(mapped(G,fresh),G)"] = {"k": "joined", "rs": [{"k": "mapped", "r": G, "map": [["c", "C"], ["d", "D"]]}, G]}
+    trees["joined(G,mapped(G,fresh))"] = {"k": "joined", "rs": [G, {"k": "mapped", "r": G, "map": [["c", "C"], ["d", "D"]]}]}
+    trees["joined(mapped(F,swap),G)"] = {"k": "joined", "rs": [{"k": "mapped", "r": F, "map": maps["swap"]}, G]}
+    trees["joined(mapped(G,swap),mapped(H,swap))"] = {"k": "joined", "via": "join_readers", "rs": [
+        {"k": "mapped", "r": G, "map": [["c", "d"], ["d", "c"]]}, {"k": "mapped", "r": H, "map": [["g", "h"], ["h", "g"]]}]}
+    trees["mapped(joined(G,F),swap-across)"] = {"k": "mapped", "map": [["c", "a"], ["a", "c"], ["d", "s"], ["s", "d"]],
+                                                "r": {"k": "joined", "rs": [G, F]}}
+    return trees, F, G
+
+
+def gen_shared_frames(ctx):
+    """column-renamed readers over the caller's in-memory frames (round 5, seeded change C13-5: ColumnMappedReader renamed the
+    frame it got from the wrapped reader in place, DataFrameReader.read(None) hands out the caller's own frame).  A reader is
+    a value and it only reads: (a) the observed request follows a whole read (columns=None) and other requests on the same
+    reader object, for maps whose targets overlap their sources; (b) another reader object over the SAME DataFrame (the plain
+    DataFrameReader: 'the frame the caller handed over is unchanged'; a second renaming) is observed after the first one
+    has been read; (c) the same maps over delimited-text / Parquet leaves and frames with row labels."""
+    cases = []
+    rng = ctx.sub("shared-frames")
+    ns = (0, 1, 2, 3, 5) if ctx.thorough else (3,)
+    for n in ns:
+        trees, F, G = _shared_trees(n)
+        for ti, (tl, rd) in enumerate(trees.items()):
+            full = (ctx.thorough and n == 3) or tl in ("mapped(F,swap)", "mapped(F,chain)")
+            firsts = _first_requests(rd, n, ti)
+            reqs = _reqs_for(rd, ti)
+            if not full:                                    # quick tier: 4 of the first requests (read-all always), rotating
+                firsts = firsts[:1] + [firsts[1 + (ti + j) % (len(firsts) - 1)] for j in range(3)]
+            for fi, (pt, pre) in enumerate(firsts):
+                tg = ["shared-frame", "tree:" + tl, f"n={n}"]
+                for cols in reqs:
+                    tgc = tg + ["cols=None" if cols is None else f"ncols={len(cols)}"]
+                    base_r = _case("read", rd, cols, tags=tgc)
+                    if not in_domain(base_r) or any(not in_domain(dict(base_r, cols=op[1] if op[0] == "read" else op[2]))
+                                                    for op in pre if op[0] != "names"):
+                        raise AssertionError(("generator: request outside the domain", tl, cols, pre))
+                    cases.append(_with_pre(base_r, pre, tag=pt))
+                    cs = range(1, n + 2) if full else sorted({rng.randint(1, n + 1), n + 1 if fi % 2 else 2})
+                    for c in cs:
+                        cases.append(_with_pre(_case("chunks", rd, cols, c, tags=tgc), pre, tag=pt))
+                cases.append(_with_pre(_case("chunks", rd, reqs[fi % len(reqs)], 2, tags=tg), pre, lazy=True, tag=pt + ",lazy"))
+                cases.append(_with_pre({"fn": "names", "reader": copy.deepcopy(rd), "tags": ["names"] + tg}, pre, tag=pt))
+                # (b) the caller's frame after the renamed reader has been read: a plain DataFrameReader over the same object
+                for leaf in (F, G):
+                    if not any(l.get("share") == leaf["share"] for l in _walk_tables(rd)):
+                        continue
+                    oth = [{"reader": copy.deepcopy(rd), "pre": pre}]
+                    tgo = ["shared-frame", "frame-after", "by:" + tl, f"n={n}", "pre:" + pt]
+                    obs = [_case("read", leaf, None, tags=tgo), _case("chunks", leaf, None, 2, tags=tgo),
+                           {"fn": "names", "reader": copy.deepcopy(leaf), "tags": ["names"] + tgo}]
+                    if full or fi == 0:
+                        nm = leaf["tab"]["names"]
+                        obs += [_case("read", leaf, [nm[1], nm[0]], tags=tgo), _case("chunks", leaf, [nm[-1]], n + 1, tags=tgo)]
+                    for o in obs:
+                        cases.append(dict(o, others=copy.deepcopy(oth)))
+        # two renamed views of one frame: the second one is observed after the first has been read (both orders)
+        pairs = [("mapped(F,swap)", "mapped(F,chain)"), ("mapped(F,chain)", "mapped(F,cycle3)"), ("mapped(F,fresh)", "mapped(F,swap)"),
+                 ("mapped(F,cycle3)", "computed(mapped(F,chain),copy)"), ("joined(mapped(G,fresh),G)", "mapped(joined(G,F),swap-across)")]
+        for x, y in pairs:
+            for first, second in ((x, y), (y, x)):
+                rd, orr = trees[second], trees[first]
+                for pt, pre in _first_requests(orr, n)[:4 if ctx.thorough else 2]:
+                    tg = ["shared-frame", "two-views", "tree:" + second, "by:" + first, f"n={n}", "pre:" + pt]
+                    oth = [{"reader": copy.deepcopy(orr), "pre": pre}]
+                    for cols in _reqs_for(rd)[:4 if ctx.thorough else 2]:
+                        cases.append(dict(_case("read", rd, cols, tags=tg), others=copy.deepcopy(oth)))
+                        cases.append(dict(_case("chunks", rd, cols, 2, tags=tg), others=copy.deepcopy(oth)))
+                    cases.append(dict({"fn": "names", "reader": copy.deepcopy(rd), "tags": ["names"] + tg}, others=copy.deepcopy(oth)))
+        # (c) the same maps over file leaves (ctor and from_path) and over frames with row labels / object strings
+        tf = plain_table(["a", "b", "s", "t"], n)
+        maps = _maps_for(tf["names"])
+        lk = _label_kinds(n)
+        leaves = [("csv.tab", _leaf("csv", tf, suffix=".tab"), None), ("csv.tab", _leaf("csv", tf, suffix=".tab"), "from_path"),
+                  ("parquet.rg2", _leaf("parquet", tf, rg=2), None), ("parquet.rg2", _leaf("parquet", tf, rg=2), "from_path"),
+                  ("frame.labels:gaps", _leaf("frame", dict(tf, **lk["gaps"]), share="F"), None),
+                  ("frame.labels:str", _leaf("frame", dict(tf, **lk["str"]), share="F"), None),
+                  ("frame.labels:dup", _leaf("frame", dict(tf, **lk["dup"]), share="F"), None),
+                  ("frame.object", _leaf("frame", dict(tf, dt="object"), share="F"), None)]
+        for li, (ll, leaf, via) in enumerate(leaves if n in (0, 3, 5) else []):
+            for mi, (ml, m) in enumerate(maps.items()):
+                if not ctx.thorough and ml not in ("swap", "chain", "cycle3", "fresh") :
+                    continue
+                rd = {"k": "mapped", "r": leaf, "map": m}
+                if via:
+                    rd["via"] = via
+                firsts = _first_requests(rd, n, mi)
+                firsts = ([firsts[0]] + [firsts[1 + (li + mi + j) % (len(firsts) - 1)] for j in range(2)] if ctx.thorough
+                          else [firsts[0], firsts[1 + (li + mi) % (len(firsts) - 1)]])
+                for pt, pre in firsts:
+                    tg = ["shared-frame", "leaf:" + ll + ("," + via if via else ""), "map:" + ml, f"n={n}"]
+                    for cols in _reqs_for(rd, mi)[:4 if ctx.thorough else 3]:
+                        cases.append(_with_pre(_case("read", rd, cols, tags=tg), pre, tag=pt))
+                        for c in (sorted({1, 2, n + 1}) if ctx.thorough else (2,)):
+                            cases.append(_with_pre(_case("chunks", rd, cols, c, tags=tg), pre, tag=pt))
+                    cases.append(_with_pre({"fn": "names", "reader": copy.deepcopy(rd), "tags": ["names"] + tg}, pre, tag=pt))
+                    if leaf["k"] == "frame":
+                        oth = [{"reader": copy.deepcopy(rd), "pre": pre}]
+                        tgo = tg + ["frame-after", "pre:" + pt]
+                        cases.append(dict(_case("read", leaf, None, tags=tgo), others=copy.deepcopy(oth)))
+                        cases.append(dict(_case("chunks", leaf, None, 2, tags=tgo), others=copy.deepcopy(oth)))
+    # random: a random renaming with overlapping targets over a random frame, random histories
+    for t in range(400 if ctx.thorough else 60):
+        n = rng.choice([0, 1, 2, 3, 4, 6, 9])
+        ncol = rng.randint(2, 5)
+        names = [f"c{j}" for j in range(ncol)]
+        tab = mk_table(rng, names, n)
+        if rng.random() < 0.3:
+            tab["dt"] = rng.choice(["object", "narrow"])
+        leaf = _leaf("frame", tab, share="F")
+        src = rng.sample(names, rng.randint(1, ncol))
+        perm = list(src)
+        rng.shuffle(perm)
+        m = [[x, y] for x, y in zip(src, perm)]             # a permutation of some of the names (fixed points included)
+        if rng.random() < 0.5:                              # ... opened into a chain: one target is a fresh name
+            m[rng.randrange(len(m))][1] = "fresh"
+        if rng.random() < 0.3:
+            m.append(["absent", rng.choice(names + ["Q"])])
+        rng.shuffle(m)
+        rd = {"k": "mapped", "r": leaf, "map": m}
+        if rng.random() < 0.3:
+            rd = {"k": "computed", "r": rd, "col": "K", "fn": ["const", rng.choice([True, 7, "decoy"])]}
+        if spec_table(rd) is None:
+            continue
+        ops = []
+        for _ in range(rng.randint(1, 3)):
+            u = rng.random()
+            cols = rand_request(rng, rd)
+            if u < 0.45:
+                ops.append(["read", None])
+            elif u < 0.6:
+                ops.append(["read", cols])
+            elif u < 0.8:
+                ops.append(["chunks", rng.randint(1, n + 2), rng.choice([None, cols]), rng.choice([None, None, 1])])
+            else:
+                ops.append(["names"])
+        if not any(op[:2] == ["read", None] for op in ops):
+            ops.insert(0, ["read", None])
+        if any(op[0] != "names" and not in_domain({"fn": "read", "reader": rd, "cols": op[1] if op[0] == "read" else op[2]})
+               for op in ops):
+            continue
+        tg = ["shared-frame", "random-renaming"]
+        for cols in (None, rand_request(rng, rd)):
+            if not in_domain({"fn": "read", "reader": rd, "cols": cols}):
+                continue
+            cases.append(_with_pre(_case("read", rd, cols, tags=tg), ops, tag="random"))
+            cases.append(_with_pre(_case("chunks", rd, cols, rng.randint(1, n + 2), tags=tg), ops, tag="random"))
+        oth = [{"reader": copy.deepcopy(rd), "pre": ops}]
+        cases.append(dict(_case("read", leaf, None, tags=tg + ["frame-after"]), others=copy.deepcopy(oth)))
+        cases.append(dict(_case("chunks", leaf, rng.choice([None, names[::-1]]), rng.randint(1, n + 2), tags=tg + ["frame-after"]),
+                          others=copy.deepcopy(oth)))
     return cases
 
 
@@ -2001,7 +2290,8 @@ def gen_writers(ctx):
 
 def gen(ctx):
     return (gen_exhaustive(ctx) + gen_empty_projection(ctx) + gen_indexed(ctx) + gen_repeated(ctx) + gen_random(ctx)
-            + gen_malformed(ctx) + gen_writers(ctx) + gen_writer_variants(ctx) + gen_finding_streams(ctx))
+            + gen_malformed(ctx) + gen_writers(ctx) + gen_writer_variants(ctx) + gen_finding_streams(ctx)
+            + gen_shared_frames(ctx))
 
 
 # ------------------------------------------------------------------------------------------------ known findings
@@ -2103,7 +2393,14 @@ def shrink(c):
     n = max([_nrows(t["tab"]) for t in _walk_tables(c["reader"])] or [0])
     for m in (n // 2, n - 1):
         if 0 <= m < n:
-            yield fix_oracles(dict(copy.deepcopy(c), reader=_cut_rows(c["reader"], m)))
+            d = dict(copy.deepcopy(c), reader=_cut_rows(c["reader"], m))
+            if c.get("others"):                             # the other readers over the same frames
+                d["others"] = [dict(o, reader=_cut_rows(o["reader"], m)) for o in d["others"]]
+            yield fix_oracles(d)
+    for key in ("pre",):                                    # fewer earlier requests
+        if c.get(key) and len(c[key]) > 1:
+            for k in range(len(c[key])):
+                yield dict(copy.deepcopy(c), **{key: c[key][:k] + c[key][k + 1:]})
     if c["fn"] == "chunks" and c["c"] > 1:
         yield fix_oracles(dict(copy.deepcopy(c), c=c["c"] - 1))
     if c.get("cols"):
